@@ -285,10 +285,9 @@ def validate_traces(chk: Check, module: str, events: List[Dict[str, Any]],
                                  f'{len(evs)})\n{res.out[-3000:]}')
         chk.add_tlc(res, f'{what} (trace validation)')
         found = []
-        for line in res.tuples:
-            mm = _RE_REJECT.match(line)
-            if mm:
-                found.append((mm.group(1), int(mm.group(2)), mm.group(3)))
+        for j in res.json_lines:
+            if isinstance(j, dict) and j.get('verdict') == 'REJECT':
+                found.append((None, int(j['line']), j['clause']))
         if len(found) != int(m.group(2)):
             raise MachineryError(f'{what}: reject lines lost')
         for tid_s, ln, clause in found:
